@@ -163,4 +163,5 @@ func c06Stream(w *W) {
 
 func init() {
 	register(&Scenario{Name: "pub-sub-stream", Prop: "C06", Horizon: time.Hour, Weight: 1, Run: c06Stream})
+	register(&Scenario{Name: "fanout-bytes-under-reset", Prop: "C01", Horizon: time.Hour, Weight: 1, Run: c06Stream})
 }
